@@ -265,6 +265,16 @@ def run_record(ops):
             return rec('well-formed operation raised PyAsn1Error: %s' % str(e)[:100], history=hist, container='Sequence', op=k)
         except Exception as e:
             return rec('operation raised %s: %s' % (type(e).__name__, str(e)[:100]), history=hist, container='Sequence', op=k)
+        # len() is the number of keys (the dict model of a record has one key per declared component), before and after
+        # reads of any kind
+        try:
+            ln = len(obj)
+        except error.PyAsn1Error:
+            ln = None
+            if not schema:
+                return rec('len() of a record value raised PyAsn1Error', history=hist, container='Sequence', op=k)
+        if ln is not None and ln != len(names):
+            return rec('len() is %d, the record has %d keys' % (ln, len(names)), history=hist, container='Sequence', op=k)
         # compare with the model
         for n_ in names:
             c = obj.getComponentByName(n_, default=None, instantiate=False)
